@@ -47,6 +47,7 @@ type netParams struct {
 	ShallowLocal int         `json:"shallow_local,omitempty"` // push: this many non-tip commits of the pushed history lack their table locally (a shallow clone)
 	Peel         int         `json:"peel,omitempty"`          // merge: the first argument is spelled b0^ / b0^^ (a commit below the branch, not the branch)
 	TagSlash     bool        `json:"tag_slash,omitempty"`     // the first tag is called release/rel1 (a tag name with a slash in it)
+	ShallowOther bool        `json:"shallow_other,omitempty"` // merge: the commit merged in is present locally without its table (left by a --depth fetch)
 	Tags2        bool        `json:"tags2,omitempty"`         // a second tag zeta9 (sorting after rel1) that the receiver does not have or has at the same value
 	Shadow       bool        `json:"shadow,omitempty"`        // merge/pull: a second local branch a/<name> exists whose name ends with the merged branch's name
 	TagRel       string      `json:"tag_rel,omitempty"`       // relation forced on the tag: clobber = the receiver's tag sits on an ancestor of the sender's
@@ -309,6 +310,11 @@ func buildNet(c *fw.Case, env *fw.Env, p *netParams, rng *rand.Rand) (*netWorld,
 			ref.SaveRef(lh.RS, "heads/b0", h.sums[pl.Local], "setup", "s@x", "setup", "b0", nil)
 		} else {
 			ref.SaveRef(lh.RS, "heads/b0", h.sums[pl.Remote], "setup", "s@x", "setup", "b0", nil)
+		}
+		if p.ShallowOther && (pl.Local < 0 || !bytes.Equal(h.tables[pl.Local], h.tables[pl.Remote])) {
+			for _, pre := range []string{"tbl/", "tblidx/", "tblsum/"} {
+				lh.DB.Delete(append([]byte(pre), h.tables[pl.Remote]...))
+			}
 		}
 	}
 	if p.Shadow && (p.Op == "merge" || (p.Op == "pull" && len(w.plans) > 0 && w.plans[0].Local >= 0)) && len(w.plans) > 0 {
